@@ -626,10 +626,111 @@ impl Part for LoopClosures {
     }
 }
 
-crate::declare_parts!(Core, Pinned, Assignments, LoopClosures);
+
+/// `loop.<attr>` read inside the filter of a loop: the filter runs before the loop it belongs to
+/// has started, so `loop` there is the *enclosing* loop (or nothing at all).
+#[derive(Clone, Debug, Serialize, Deserialize)]
+pub struct FilterLoopCase {
+    /// attribute of `loop` the inner filter tests: first, last, index odd, index0 == 1, revindex > 1, length > 2
+    pub attr: u8,
+    /// 0 = nested in an outer loop, 1 = nested two deep (refers to the middle loop), 2 = no enclosing loop
+    pub nesting: u8,
+    /// the filter also involves the item
+    pub with_item: bool,
+    pub else_branch: bool,
+}
+
+pub struct FilterLoops;
+
+fn filter_loop_program(c: &FilterLoopCase) -> Vec<Stmt> {
+    let t = |s: &str| Stmt::Text(s.to_string());
+    let la = |a: &str| Expr::Attr(Box::new(Expr::var("loop")), a.to_string());
+    let cmp = |l: Expr, op: CmpOp, r: i128| Expr::Cmp(Box::new(l), vec![(op, Expr::int(r))]);
+    let mut cond = match c.attr % 6 {
+        0 => la("first"),
+        1 => la("last"),
+        2 => Expr::Test(Box::new(la("index")), "odd".into(), vec![], false),
+        3 => cmp(la("index0"), CmpOp::Eq, 1),
+        4 => cmp(la("revindex"), CmpOp::Gt, 1),
+        _ => cmp(la("length"), CmpOp::Gt, 2),
+    };
+    if c.with_item {
+        cond = Expr::Bin(BinOp::And, Box::new(cond), Box::new(cmp(Expr::var("x"), CmpOp::Gt, 1)));
+    }
+    let inner = Stmt::For {
+        target: Target::Name("x".into()),
+        iter: Expr::var("cl"),
+        filter: Some(cond),
+        recursive: false,
+        body: vec![Stmt::Emit(Expr::var("x")), t(":"), Stmt::Emit(la("index")), t("/"), Stmt::Emit(la("length")), t(",")],
+        else_: if c.else_branch { Some(vec![t("none")]) } else { None },
+    };
+    let wrap = |body: Vec<Stmt>, var: &str, items: Vec<i128>| Stmt::For {
+        target: Target::Name(var.into()),
+        iter: Expr::List(items.into_iter().map(Expr::int).collect()),
+        filter: None,
+        recursive: false,
+        body,
+        else_: None,
+    };
+    let bracket = |s: Stmt| vec![t("["), s, t("]")];
+    match c.nesting % 3 {
+        0 => vec![wrap(bracket(inner), "row", vec![1, 2, 3])],
+        1 => vec![wrap(vec![t("("), wrap(bracket(inner), "row", vec![1, 2]), t(")")], "outer", vec![1, 2, 3])],
+        _ => bracket(inner),
+    }
+}
+
+impl Part for FilterLoops {
+    type Case = FilterLoopCase;
+    const NAME: &'static str = "loop_attributes_in_loop_filters";
+
+    fn strategy(_tier: Tier) -> BoxedStrategy<FilterLoopCase> {
+        (0u8..6, 0u8..3, any::<bool>(), any::<bool>())
+            .prop_map(|(attr, nesting, with_item, else_branch)| FilterLoopCase { attr, nesting, with_item, else_branch })
+            .boxed()
+    }
+
+    fn enumeration(_tier: Tier) -> Vec<FilterLoopCase> {
+        let mut out = vec![];
+        for attr in 0..6u8 {
+            for nesting in 0..3u8 {
+                for with_item in [false, true] {
+                    for else_branch in [false, true] {
+                        out.push(FilterLoopCase { attr, nesting, with_item, else_branch });
+                    }
+                }
+            }
+        }
+        out
+    }
+
+    fn check(c: &FilterLoopCase) -> Verdict {
+        let body = filter_loop_program(c);
+        let mut last = Verdict::pass(true);
+        for ctx_variant in 0..4u8 {
+            let mut v = compare(&body, ctx_variant);
+            v.nontrivial = true;
+            if v.labels.contains(&"outside_fragment") {
+                v.set_fail("filter_loop_program_outside_fragment", "the reference interpreter does not cover a loop filter program".to_string());
+            }
+            if v.fail.is_some() {
+                return v;
+            }
+            last = v;
+        }
+        last
+    }
+
+    fn show(c: &FilterLoopCase) -> serde_json::Value {
+        serde_json::json!({"source": print::template_default(&filter_loop_program(c))})
+    }
+}
+
+crate::declare_parts!(Core, Pinned, Assignments, LoopClosures, FilterLoops);
 
 pub fn run(ctx: &mut Ctx) {
-    ctx.rule = "well-typed programs of the core fragment from a scope-tracking generator driven by a proptest byte tape (expressions over ints, strings, bools, lists, maps: arithmetic, comparison chains, and/or/not, in, ~, if-expressions, subscripts, attribute access, filters upper/lower/trim/length/sum/join/sort/reverse/string/default/replace/abs, tests defined/odd/even/divisibleby; statements: set, if/elif/else, for with else, loop filter, tuple unpacking, loop.index/index0/revindex/revindex0/first/last/length/previtem/nextitem/depth/cycle/changed printed in every loop, set-blocks with filters, with (several bindings; a later value never reads an earlier target of the same statement: Jinja documents the values as evaluated outside the block, this engine binds left to right - not judged), filter blocks, macros with literal defaults, positional and keyword arguments and caller(), call blocks with parameters, optional break/continue), 4 contexts; part unpacking_assignments: `set`/`with` with tuple targets (2-4 names, optionally nested) from a tuple or list literal whose items read the names being assigned (all two-target forms enumerated: swaps, rotations, `x, a + 1`), at template level, in a loop, in a macro, in an if-branch; part closures_declared_in_loops (480 programs, complete): a macro and/or a call block declared in a loop body reads a name that one iteration assigns (unknown to the context, or shadowing a context string), next to a plain read at the same place, in a plain loop, inside a with, in a loop inside a macro, in an inner loop; after every scoped construct probes print `name is defined` / `name` for names assigned inside and before it. Oracle: an independent reference interpreter of the documented semantics (refint.rs) must give the same output and agree on error-or-not. Non-trivial: a loop or macro call and two different scoped constructs nested. Distinct by case.".into();
+    ctx.rule = "well-typed programs of the core fragment from a scope-tracking generator driven by a proptest byte tape (expressions over ints, strings, bools, lists, maps: arithmetic, comparison chains, and/or/not, in, ~, if-expressions, subscripts, attribute access, filters upper/lower/trim/length/sum/join/sort/reverse/string/default/replace/abs, tests defined/odd/even/divisibleby; statements: set, if/elif/else, for with else, loop filter, tuple unpacking, loop.index/index0/revindex/revindex0/first/last/length/previtem/nextitem/depth/cycle/changed printed in every loop, set-blocks with filters, with (several bindings; a later value never reads an earlier target of the same statement: Jinja documents the values as evaluated outside the block, this engine binds left to right - not judged), filter blocks, macros with literal defaults, positional and keyword arguments and caller(), call blocks with parameters, optional break/continue), 4 contexts; part unpacking_assignments: `set`/`with` with tuple targets (2-4 names, optionally nested) from a tuple or list literal whose items read the names being assigned (all two-target forms enumerated: swaps, rotations, `x, a + 1`), at template level, in a loop, in a macro, in an if-branch; part loop_attributes_in_loop_filters (72 programs, complete): loop.first/last/index/index0/revindex/length read in the filter of a loop that is nested in one or two other loops or in none (the filter runs before its own loop exists, so `loop` is the enclosing loop); part closures_declared_in_loops (480 programs, complete): a macro and/or a call block declared in a loop body reads a name that one iteration assigns (unknown to the context, or shadowing a context string), next to a plain read at the same place, in a plain loop, inside a with, in a loop inside a macro, in an inner loop; after every scoped construct probes print `name is defined` / `name` for names assigned inside and before it. Oracle: an independent reference interpreter of the documented semantics (refint.rs) must give the same output and agree on error-or-not. Non-trivial: a loop or macro call and two different scoped constructs nested. Distinct by case.".into();
     ctx.assumptions = vec![
         "refint.rs implements the documented semantics; where the documentation is silent the generator does not go (macro defaults referring to parameters, printing multi-entry maps, reassigning template-level variables after a macro that reads them was declared, strings with quotes inside printed lists)".into(),
         "programs the reference interpreter flags as outside its fragment are skipped (label outside_fragment)".into(),
@@ -638,6 +739,7 @@ pub fn run(ctx: &mut Ctx) {
     let t = ctx.tier;
     ctx.run_enumerated::<Pinned>(Pinned::enumeration(t), false);
     ctx.run_enumerated::<LoopClosures>(LoopClosures::enumeration(t), true);
+    ctx.run_enumerated::<FilterLoops>(FilterLoops::enumeration(t), true);
     ctx.run_enumerated::<Assignments>(Assignments::enumeration(t), false);
     ctx.run_part::<Assignments>(t.pick(20_000, 400_000));
     ctx.run_part::<Core>(t.pick(30_000, 12_000_000));
